@@ -252,6 +252,17 @@ def multikey_cases(tier, seed):
                 yield {"kind": kind, "cfg": BASE_CFG, "op": {"op": "set_many", "values": {k: b"v" for k in keys}, "noreply": True}}
         yield {"kind": "client", "cfg": BASE_CFG, "op": {"op": "delete_many", "keys": good, "noreply": False}}
         yield {"kind": "client", "cfg": BASE_CFG, "op": {"op": "get_many", "keys": good}}
+    # a batch of large values with one item the client has to refuse (a value the encoding cannot express, an illegal key)
+    # at the start, in the middle, at the end: nothing of the batch may be on the wire when the input error is raised
+    big = b"x" * 30000
+    for n_good in (1, 3, 4, 9):
+        for pos in sorted({0, n_good // 2, n_good}):
+            for bad_k, bad_v in (("late", "not-ascii-\u00e9"), ("late key", b"v"), ("late", "\udcff-surrogate")):
+                items = [("good-%d" % j, big) for j in range(n_good)]
+                items.insert(pos, (bad_k, bad_v))
+                for kind in ("client", "pooled", "hash"):
+                    for nr in (True, False):
+                        yield {"kind": kind, "cfg": BASE_CFG, "op": {"op": "set_many", "values": dict(items), "noreply": nr}}
     # the key collection may be any iterable - a one-shot one too, also when it turns out to be empty
     for n in (0, 1, 3):
         keys = [b"key-%d" % j for j in range(n)]
